@@ -6,6 +6,7 @@ LEVEL = "model_checking"
 
 def run(ctx):
     hosts_common.run_family(ctx, ["C04"], ["free", "notify"])
+    ctx.coverage.setdefault("tlc", {})["hosts_liveness"] = hosts_common.liveness(ctx)
 
 
 def replay(ctx, path):
